@@ -420,7 +420,19 @@ func (o *Obligation) RelaxedVCGoal() ([]*Term, *Term) {
 	cands := append(append([]*Term{}, sk...), indexTerms([]*Term{o.Guard, ng}, 6)...)
 	cands = append(cands, hsk...)
 	u.instCap = 0
-	cands = append(cands, u.permCandidates(sk)...)
+	{
+		// positions under sort permutations: for the goal's skolems and, when the goal has none (an existential
+		// goal), for the loop positions mentioned on the path
+		base := sk
+		if len(base) == 0 {
+			for _, k := range cands {
+				if k.Sort == SInt && len(base) < 6 {
+					base = append(base, k)
+				}
+			}
+		}
+		cands = append(cands, u.permCandidates(base)...)
+	}
 	if os.Getenv("GOVC_DEBUG") == "5" {
 		for _, k := range cands {
 			fmt.Fprintln(os.Stderr, "cand:", o.Name, trunc(k.String(), 100))
@@ -479,6 +491,20 @@ func (o *Obligation) RelaxedVCGoal() ([]*Term, *Term) {
 	if hasQuant(ng) {
 		gc := append(append([]*Term{}, cands...), witnesses...)
 		gc = append(gc, indexTerms(as, 10)...)
+		u.goalInstCap = 0
+		if n := u.counters["perm"]; n > 0 {
+			// positions under the permutations of sort models, for every integer candidate (witnesses of a goal about
+			// the unsorted sequence are images of positions in the sorted one)
+			var ints []*Term
+			for _, k := range gc {
+				if k.Sort == SInt && len(ints) < 12 {
+					ints = append(ints, k)
+				}
+			}
+			gc = append(gc, u.permCandidates(ints)...)
+			u.instCap = 0
+			u.goalInstCap = 4096
+		}
 		if os.Getenv("GOVC_DEBUG") == "5" {
 			for _, k := range gc {
 				fmt.Fprintln(os.Stderr, "goalcand:", o.Name, trunc(k.String(), 120))
